@@ -844,7 +844,15 @@ impl Harness for Tcp2 {
         let mut s = String::new();
         use std::fmt::Write;
         for e in &self.ends {
-            write!(s, "{:?}|{}|{}|{}|{}|{}|", e.sockets, e.written, e.read.len(), e.closed, e.finished, e.stalled).unwrap();
+            if e.rx_cap > 4096 {
+                // the Debug image of a 128 KiB buffer is too costly per step; this fingerprint only
+                // feeds the distinct-state statistic and the determinism check in devbound mode
+                let so = e.sockets.get::<tcp::Socket>(e.h);
+                write!(s, "{}|{}|{}|", so.state(), so.send_queue(), so.recv_queue()).unwrap();
+            } else {
+                write!(s, "{:?}|", e.sockets).unwrap();
+            }
+            write!(s, "{}|{}|{}|{}|{}|", e.written, e.read.len(), e.closed, e.finished, e.stalled).unwrap();
         }
         for d in 0..2 {
             for f in &self.net[d] {
